@@ -632,6 +632,12 @@ func (x *Exec) callContract(f *frame, in ssa.Instruction, callee *ssa.Function, 
 		if fc.Lemma {
 			continue
 		}
+		if pathGhostRe.MatchString(c.Text) {
+			// ncalls/lastret/... count what happened on the path INSIDE the callee; in the
+			// caller the same ghosts describe the caller's own path, so such a postcondition
+			// says nothing a caller may assume (it is still proved for the callee itself)
+			continue
+		}
 		t = x.evalClauseDualOld(c, callee, st, pre, results, bind)
 		x.assume(st, t)
 	}
@@ -667,6 +673,10 @@ func (x *Exec) frameCheckCall(st *State, ents []modEntry, pos token.Pos) {
 					ok = append(ok, eq(e.ref, m.ref))
 				}
 				if m.obj && !e.obj && !e.elem {
+					ok = append(ok, eq(e.ref, m.ref))
+				}
+				if m.elem && e.elem {
+					// the callee may write the elements of a slice whose elements the caller may write
 					ok = append(ok, eq(e.ref, m.ref))
 				}
 			}
